@@ -187,3 +187,91 @@ def run(spec, cfgname, post_depth=0):
     res["outcome"] = "judged"
     res["stdout_len"] = len(r["stdout"])
     return res
+
+
+# ---------------------------------------------------------------------------------------------------------------------
+# shipped examples as models: the example builds its own PEP; PEP.solve is wrapped so that the solved problem is judged
+# (certificate over the recorded sent list, instance, translation validation) before control returns to the example.
+# ---------------------------------------------------------------------------------------------------------------------
+def run_example_as_model(name, kw, backend="cvxpy"):
+    """Returns dict(c01=[...], c02=[...], c05=[...], outcome)."""
+    import contextlib, importlib, io
+    from mc import examples_table as T
+    from PEPit.pep import PEP
+    from PEPit.point import Point
+    from PEPit.expression import Expression
+    e = T.ENTRIES[name]
+    fn = getattr(importlib.import_module(e["module"]), e["func"])
+    res = dict(c01=[], c02=[], c05=[], outcome="not-solved", solves=0)
+    orig = PEP.solve
+
+    def solve(self, *a, **k):
+        with REC.recording():
+            out = orig(self, *a, **k)
+        res["solves"] += 1
+        try:
+            w = self.wrapper
+            status = w.prob.status if getattr(w, "prob", None) is not None and hasattr(w.prob, "status") else w.task.sol.get("status")
+        except Exception:
+            status = None
+        if out is None or status != "optimal":
+            res["outcome"] = "not-judged:%s" % status
+            return out
+        be = self.wrapper_name if self.wrapper_name in ("cvxpy", "mosek") else backend
+        tol = solving.tolerance(be, "CLARABEL")
+        calls = getattr(self.wrapper, "rec_calls", None)
+        if calls is None:
+            return out
+        try:
+            from mc.checks.c05 import validate_posed
+            probs5, _, _ = validate_posed(self, be)
+            res["c05"] += probs5
+        except Exception as ex:
+            res["c05"].append(("model:validation-raised:%s" % type(ex).__name__, str(ex)[:150]))
+        sent_c = [c[1] for c in calls if c[0] == "scalar"]
+        sent_m = [c[1] for c in calls if c[0] == "lmi"]
+        try:
+            cert = CERT.certificate(self, constraints=sent_c, psds=sent_m)
+            sc = cert["scale"]
+            if cert["resid"] > tol * sc:
+                if cert["asym_pairs"] > 0 and cert["resid_after_asym"] <= tol * sc:
+                    res["c01"].append(("cert:lmi-not-symmetric-as-written:%s" % be, "identity fails by %.2e but closes (%.1e) with antisymmetric corrections on %d entry pairs" % (cert["resid"], cert["resid_after_asym"], cert["asym_pairs"])))
+                else:
+                    res["c01"].append(("cert:identity:%s" % be, "example %s%s: largest non-constant coefficient of the identity %.2e (scale %.2e)" % (name, kw, cert["resid"], sc)))
+            elif abs(cert["const"] - out) > 1e-9 * max(1.0, abs(out)) and k.get("return_primal_or_dual", "dual") == "dual":
+                res["c01"].append(("cert:value-not-constant:%s" % be, "example %s%s returned %.10g, identity constant %.10g" % (name, kw, out, cert["const"])))
+            if cert["lam_min"] < -tol * max(1.0, sc) or cert["psd_min"] < -tol * max(1.0, sc):
+                res["c01"].append(("cert:sign:%s" % be, "negative multiplier %.2e / eigenvalue %.2e" % (cert["lam_min"], cert["psd_min"])))
+            if [id(x) for x in sent_c] != [id(x) for x in self._list_of_constraints_sent_to_wrapper] or [id(x) for x in sent_m] != [id(x) for x in self._list_of_psd_sent_to_wrapper]:
+                res["c01"].append(("cert:sent-list-mismatch:%s" % be, "the problem's record of what was sent differs from what was sent"))
+        except Exception as ex:
+            res["c01"].append(("cert:raised:%s:%s" % (be, type(ex).__name__), str(ex)[:150]))
+        try:
+            sG = sF = None
+            if be == "cvxpy":
+                sG, sF = self.wrapper.G.value, self.wrapper.F.value
+            else:
+                sG, sF = self.wrapper.task.sol["barx"][0], self.wrapper.task.sol["xx"]
+            res["c02"] += [(k_ + ":" + be, m_) for k_, m_ in CERT.instance(self, held=[], tol=tol, solver_G=sG, solver_F=sF)]
+        except Exception as ex:
+            res["c02"].append(("instance:raised:%s:%s" % (be, type(ex).__name__), str(ex)[:150]))
+        res["outcome"] = "judged"
+        res["pep"] = self
+        return out
+    PEP.solve = solve
+    try:
+        with contextlib.redirect_stdout(io.StringIO()):
+            if backend == "mosek":
+                with solving.standin():
+                    fn(verbose=0, wrapper="mosek", **kw)
+            else:
+                fn(verbose=0, solver="CLARABEL", **kw)
+    except Exception as ex:
+        if type(ex).__name__ != "SolverError":
+            res["c01"].append(("example-raised:%s" % type(ex).__name__, "%s%s raised %s: %s" % (name, kw, type(ex).__name__, str(ex)[:150])))
+            res["c02"].append(("example-raised:%s" % type(ex).__name__, "%s%s raised %s" % (name, kw, type(ex).__name__)))
+        res["outcome"] = "raised"
+    finally:
+        PEP.solve = orig
+    res.pop("pep", None)
+    return res
